@@ -7,7 +7,9 @@ predicates (`MayAccept`, `MayFinalize`, `Preferred`, timeout rule) on the *imple
 commitments, independently of the model pool.
 
   committee <round> <members>            members: `w<id>`/`b<id>` comma separated, in order (`-` empty); resets
-  commit <sigOk> <node> <sched> <round> <hash> <fail> <res> [MUTATED]  VerifyExecutorCommitment + Add...
+  commit <wire> <node> <sched> <round> <hash> <fail> <res> [MUTATED]   wire: 1 ok, 0 bad signature, 2 refused by ValidateBasic;
+        fail: what the real commitment's IsIndicatingFailure() says
+  (was) commit <sigOk> ...  VerifyExecutorCommitment + Add...
         MUTATED: the serialized pool differs although the commitment was rejected
   tx <res> <sigOk>,<node>,<sched>,<round>,<hash>,<fail> ...          one executorCommit transaction (real handler):
         all commitments are admitted in order, or — on the first error `res` — none is (pool restored)
@@ -56,11 +58,16 @@ def parseEC (n s r h f : String) : Option EC := do
   let f ← parseBool f
   pure { node := n, sched := s, round := r, hash := h, failure := f }
 
-/-- `sigOk,node,sched,round,hash,fail` -/
-def parseTxCommit (s : String) : Option (Bool × EC) :=
+/-- `1` well-formed and correctly signed, `0` bad signature, `2` refused by ValidateBasic. -/
+def parseWire (s : String) : Option WireCheck :=
+  if s == "1" then some .ok else if s == "0" then some .badSignature
+  else if s == "2" then some .malformed else none
+
+/-- `wire,node,sched,round,hash,fail` -/
+def parseTxCommit (s : String) : Option (WireCheck × EC) :=
   match s.splitOn "," with
   | [so, n, sc, r, h, f] => do
-    let so ← parseBool so
+    let so ← parseWire so
     let e ← parseEC n sc r h f
     pure (so, e)
   | _ => none
@@ -138,6 +145,8 @@ def checkState (st : DSt) (hr : String) (disc : Bool) (entries : List Entry) : O
 /-- Rule checks on the implementation's answer to a commit (second sentence of C11). -/
 def specAccept (st : DSt) (ec : EC) (res : String) : Option String :=
   if res != "ok" || st.specOff then none
+  else if ec.failure && ec.node == ec.sched then
+    some s!"scheduler {ec.sched}'s own failure-indicating commitment accepted (a proposal without a result)"
   else if !isMember st.c ec.node then some s!"non-member {ec.node} accepted"
   else if (voteOf st.log ec.sched ec.node).isSome then
     some s!"second vote of node {ec.node} for scheduler {ec.sched} accepted"
@@ -184,7 +193,7 @@ def step (st : DSt) (line : String) : DSt × String :=
       -- rule checks on an accepted transaction: every commitment was acceptable in its turn
       let specBad : Option String :=
         if res != "ok" then none else
-        (cs.foldl (fun (acc : DSt × Option String) (x : Bool × EC) =>
+        (cs.foldl (fun (acc : DSt × Option String) (x : WireCheck × EC) =>
           match acc with
           | (s, some m) => (s, some m)
           | (s, none) => match specAccept s x.2 "ok" with
@@ -196,17 +205,17 @@ def step (st : DSt) (line : String) : DSt × String :=
         let st1 := if res == "ok" then { st with log := st.log ++ cs.map (·.2) } else st
         if st.dead then (st1, "skip") else
         -- model: submit in order; the first error aborts the transaction and restores the pool
-        let r := cs.foldl (fun (acc : Pool × Option AddErr) (x : Bool × EC) =>
+        let r := cs.foldl (fun (acc : Pool × Option AddErr) (x : WireCheck × EC) =>
           match acc with
           | (p, some e) => (p, some e)
-          | (p, none) => submit st.c st.round p x.1 x.2) (st.pool, none)
+          | (p, none) => submitWire st.c st.round p x.1 x.2) (st.pool, none)
         let st2 := match r.2 with
           | none => { st1 with pool := r.1 }
           | some _ => st1
         if errStr r.2 != res then diverge st2 s!"tx result model={errStr r.2} impl={res}"
         else (st2, "ok")
   | "commit" :: so :: n :: s :: r :: h :: f :: res :: rest =>
-    match parseBool so, parseEC n s r h f with
+    match parseWire so, parseEC n s r h f with
     | some so, some ec =>
       if rest == ["MUTATED"] && !st.specOff then
         ({ st with dead := true }, "SPECFAIL rejected commitment changed the pool")
@@ -216,7 +225,7 @@ def step (st : DSt) (line : String) : DSt × String :=
       | none =>
         let st1 := if res == "ok" then { st with log := st.log ++ [ec] } else st
         if st.dead then (st1, "skip") else
-        let (p, e) := submit st.c st.round st.pool so ec
+        let (p, e) := submitWire st.c st.round st.pool so ec
         let st2 := { st1 with pool := p }
         if errStr e != res then diverge st2 s!"commit result model={errStr e} impl={res}"
         else (st2, "ok")
